@@ -526,6 +526,23 @@ func (n *Net) ConfirmBy(who *Deputy, h common.Hash) types.SignData {
 	return types.BytesToSignData(sig)
 }
 
+// Stabilise makes blk the stable block of the factory's own store (as the confirmations of the
+// other deputies would on a real miner): siblings of the stable chain are pruned there, the
+// "canonical" account records the node reads straight from disk move forward.
+func (f *Factory) Stabilise(blk *types.Block) error {
+	var err error
+	task := f.Net.C.W.Do(f.Tag, "factory.stable", func() {
+		if cur, e := f.DB.LoadLatestBlock(); e == nil && cur.Height() >= blk.Height() {
+			return
+		}
+		_, err = f.DB.SetStableBlock(blk.Hash())
+	})
+	if !task.Finished {
+		return fmt.Errorf("stabilise task did not finish (panic: %v)", task.Panic)
+	}
+	return err
+}
+
 // Confirm signs block hash h with deputy d's node key (not through the engine).
 func (n *Net) Confirm(d int, h common.Hash) types.SignData {
 	sig, err := crypto.Sign(h[:], n.Deputies[d].Node.Key)
